@@ -686,6 +686,12 @@ class Interp:
         if ts.startswith(("std::vector<", "std::deque<", "std::unordered_set<", "std::unordered_map<", "std::set<",
                           "std::map<", "std::shared_ptr<", "std::unique_ptr<")):
             o.fields[name] = self.default_for_type(fn, f["t"])
+            return
+        # container types the world itself knows how to default-construct (xtensor arrays: empty)
+        if ts.startswith(("xt::xtensor_container<", "xt::xarray_container<")):
+            w = self.world.default_value(self, ts)
+            if w is not NOT_HANDLED:
+                o.fields[name] = w
 
     def new_obj(self, fn, rec):
         o = Obj(rec["bn"], {}, fn.unit.type(rec["t"]))
